@@ -277,9 +277,22 @@ Definition c18_return_clauses (snaps : list tree) : list tree :=
 
 Definition main_blocked (s : state) : bool := match mn s with MDeliver _ _ => true | _ => false end.
 
+(* (17,3): where the model says Execute returns cleanly in the course of a command (all workers had finished), the
+   implementation must show it promptly, not after sitting out the shutdown timeout (theorem C17_prompt_return).
+   aw = per command, the time until the predicted snapshot was there. *)
+Fixpoint prompt_clauses (prev : Z) (exp : list (cmd * tree)) (aw : list Z) : list tree :=
+  match exp, aw with
+  | (_, T [_; L m; _]) :: r, ms :: ar =>
+      (if (prev =? 0) && (m =? 1) && (700 <? ms) then [clause 17 3 []] else []) ++ prompt_clauses m r ar
+  | _, _ => []
+  end%Z.
+
 Definition judge_lock (ti tobs : tree) : tree :=
-  match dec_lock ti, (match tobs with T [a; b; c; d] => T [a; b; c; d; T []] | _ => tobs end) with
-  | Some i, T [netdump; snap0; T snaps; waits; fin] =>
+  match dec_lock ti, (match tobs with
+                      | T [a; b; c; d] => T [a; b; c; d; T []; T []]
+                      | T [a; b; c; d; e] => T [a; b; c; d; e; T []]
+                      | _ => tobs end) with
+  | Some i, T [netdump; snap0; T snaps; waits; fin; awaits] =>
       if negb (in_domain_e1 (li_cfgs i)) || (li_T i <? 1)%nat then out_of_domain else
       match getZs waits with
       | None => malformed
@@ -300,7 +313,8 @@ Definition judge_lock (ti tobs : tree) : tree :=
                             || existsb (fun g => match g with T [_; L 2; _] => true | _ => false end) snaps
                             || existsb (fun ms => Z.of_nat (li_T i) * 1000 - 100 <=? ms) waits
                          then [] else final_clauses nt fin)
-                     ++ c18_return_clauses (snaps ++ match fin with T [sn; _] => [sn] | _ => [] end) in
+                     ++ c18_return_clauses (snaps ++ match fin with T [sn; _] => [sn] | _ => [] end)
+                     ++ prompt_clauses 0 out (match getZs awaits with Some l => l | None => [] end) in
       verdict (dedup diffs) clauses (T [enc_net nt; s0; ofList (fun cs => snd cs) out])
               (dedup (flat_map (fun cs => tag_of_cmd (fst cs)) out)
                ++ (if stopped p then [5] else []) ++ (if bad p then [6] else [])
